@@ -23,6 +23,15 @@ def reject_result(res):
 def compare_named_outputs(prog, circ, ref_env, names, label=""):
     """Compare every named output with the reference. Returns (failures, n_checked, unobservable)."""
     fails, checked, unobs = [], 0, []
+    decls = {s.name: s for s in prog.stmts if isinstance(s, lang.Decl)}
+
+    def shape(name):
+        d = decls.get(name)
+        if d is None:
+            return "?"
+        ops = sorted(lang.ops_in(d.e))
+        return ",".join(ops)[:40] or "leaf"
+
     for name in names:
         want = ref_env.get(name)
         o = obs.observe(circ, name)
@@ -35,18 +44,18 @@ def compare_named_outputs(prog, circ, ref_env, names, label=""):
             if lang.known_type(want.ty):
                 sig = want.ty
                 if adv not in (sig, "bundle", None) and not (adv or "").startswith("signal-e"):
-                    fails.append({"sig": f"type:{how}", "detail": {"name": name, "want_type": sig, "advertised": adv, "label": label}})
+                    fails.append({"sig": f"type:{how}:{shape(name)}", "detail": {"name": name, "want_type": sig, "advertised": adv, "label": label}})
                     continue
             else:
                 sig = adv
             got = net.get(sig, 0)
             if got != want.v:
-                fails.append({"sig": f"value:{how}", "detail": {"name": name, "signal": sig, "want": want.v, "got": got,
+                fails.append({"sig": f"value:{how}:{shape(name)}", "detail": {"name": name, "signal": sig, "want": want.v, "got": got,
                                                                  "net": net, "label": label}})
         elif isinstance(want, lang.BundleV):
             checked += 1
             if net != want.d():
-                fails.append({"sig": f"bundle:{how}", "detail": {"name": name, "want": want.d(), "got": net, "label": label}})
+                fails.append({"sig": f"bundle:{how}:{shape(name)}", "detail": {"name": name, "want": want.d(), "got": net, "label": label}})
     return fails, checked, unobs
 
 
